@@ -72,6 +72,17 @@ KeyText(e) == NetOf(e.kind) \o " -h " \o e.host \o " -p " \o ToString(e.port) \o
 \* what "the same endpoint" means for the key clause: agreement on the ten fields
 TenTuple(e) == <<e.host, e.port, e.timeout, e.kind, e.grid, e.qos, e.weight, e.wtype, e.auth, e.setid>>
 
+\* ---------------------------------------------------------------- the sites that use a parsed endpoint
+\* A direct object address is a list of texts; its endpoint manager holds Parse of every member, unchanged.
+DirectList(parts) == [i \in DOMAIN parts |-> Parse(parts[i][1], parts[i][2])]
+\* A server adapter's endpoint line: the application stores Parse of the line (Stored), announces ToTars of what it
+\* stores to the registry (Announced), and listens on the bind address if one is given, else on the host.  The bind
+\* address is a field of its own: it is no part of the endpoint's identity (host, key, announcement).
+Stored(proto, opts)    == Parse(proto, opts)
+Announced(proto, opts) == ToTars(Stored(proto, opts))
+ListenAddr(e)          == <<IF e.bind # "" THEN e.bind ELSE e.host, e.port>>
+WithoutBind(opts)      == SelectSeq(opts, LAMBDA t : t.o # "b")
+
 \* ---------------------------------------------------------------- theorems (checked by TLC, MC_Endpoint)
 Agree(a, b, fields) == \A f \in fields : a[f] = b[f]
 
@@ -91,6 +102,14 @@ SwapAt(opts, i) == [k \in DOMAIN opts |-> IF k = i THEN opts[i + 1] ELSE IF k = 
 OrderFree(opts) == \A i \in 1 .. Len(opts) - 1 : opts[i].o # opts[i + 1].o => Fold(SwapAt(opts, i)) = Fold(opts)
 \* T6 with a weight type the weight is a usable share: never "unset", never above 100
 WeightRange(e)  == e.wtype # 0 => (e.weight # -1 /\ e.weight <= 100)
+\* T8 the bind address changes nothing but itself: the ten fields, the key and the announcement are those of the
+\*    same text without -b; a client reading the announcement obtains the key of the stored endpoint
+BindApart(proto, opts) ==
+    LET e == Stored(proto, opts) e0 == Stored(proto, WithoutBind(opts)) IN
+    /\ Agree(e, e0, Ten) /\ Key(e) = Key(e0) /\ KeyText(e) = KeyText(e0)
+    /\ Announced(proto, opts) = Announced(proto, WithoutBind(opts))
+    /\ KeyText(FromTars(Announced(proto, opts))) = KeyText(e)
+    /\ ListenAddr(e)[2] = e.port /\ (e.bind = "" => ListenAddr(e)[1] = e.host)
 \* T7 equal keys mean the same place to connect to (the key text is injective on Key)
 KeySound(e1, e2) == (KeyText(e1) = KeyText(e2)) <=> (Key(e1) = Key(e2))
 =============================================================================
